@@ -146,6 +146,7 @@ func runC03(p *core.Program, r *core.Report) {
 	c03ZipStatus(p, r)
 	r.Rule("C03.zip-complete", "the gzip stream handed back by DoZip is complete: the compressor's Close() has run before its buffer is read", 1)
 	gzipClosedBeforeRead(p, r, "C03.zip-complete", []string{"util/compressutil"})
+	noSilentTruncation(p, r, "C03.zip-complete", []string{"util/compressutil"})
 	r.Rule("C03.zippure", "compressutil.DoZip/UnZip are stateless (no package-level variable): results never alias reused storage", 2)
 	c03ZipPure(p, r)
 	nth := map[string]int{}
